@@ -250,6 +250,9 @@ pub struct Executor<E: Effect> {
     builtins_registry: crate::builtins::BuiltinRegistry<E>,
     // Profiling
     pub stats: ExecutionStats,
+    /// Verification hook: how often each heap slot has been (re)allocated.
+    #[cfg(feature = "verif")]
+    verif_generations: Vec<u64>,
     profile: bool,
     // Ref generation: worker_id (upper 16 bits) combined with counter (lower 48 bits)
     worker_id: u16,
@@ -317,12 +320,26 @@ impl<E: Effect> Executor<E> {
             self.heap[index] = data;
             self.refcounts[index] = 0;
             self.freed[index] = false;
+            #[cfg(feature = "verif")]
+            {
+                if self.verif_generations.len() <= index {
+                    self.verif_generations.resize(index + 1, 0);
+                }
+                self.verif_generations[index] += 1;
+            }
             Ok(Binary::Heap(index))
         } else {
             let index = self.heap.len();
             self.heap.push(data);
             self.refcounts.push(0);
             self.freed.push(false);
+            #[cfg(feature = "verif")]
+            {
+                if self.verif_generations.len() <= index {
+                    self.verif_generations.resize(index + 1, 0);
+                }
+                self.verif_generations[index] += 1;
+            }
             Ok(Binary::Heap(index))
         }
     }
@@ -631,6 +648,8 @@ impl<E: Effect> Executor<E> {
             constant_binaries: vec![],
             builtins_registry,
             stats: ExecutionStats::new(),
+            #[cfg(feature = "verif")]
+            verif_generations: Vec::new(),
             profile,
             worker_id,
             next_ref: 0,
@@ -2975,6 +2994,7 @@ impl<E: Effect> Executor<E> {
             freed: self.freed.clone(),
             free: self.free.clone(),
             pending_free: self.pending_free.clone(),
+            generations: self.verif_generations.clone(),
             bytes: self.heap.iter().map(|d| d.to_vec()).collect(),
             constant_slots: self
                 .constant_binaries
